@@ -32,7 +32,7 @@ K_ = "kelvin"
 DEFAULT_UNITS = {
     "degree_Celsius": ("offset", F(1), F("273.15")),
     "degree_Fahrenheit": ("offset", F(5, 9), F("233.15") + F(200, 9)),
-    "degree_Reaumur": ("offset", F(4, 5), F("273.15")),
+    "degree_Reaumur": ("offset", F(5, 4), F("273.15")),   # 80 degRe = 100 degC (the bundled 4/5 was repaired under C20)
     "kelvin": ("abs", F(1), F(0)),
     "degree_Rankine": ("abs", F(5, 9), F(0)),
 }
@@ -265,7 +265,7 @@ def probe_quirks(ck):
     try:
         v = r.Quantity(F(10), r.UnitsContainer({"degree_Celsius": 1, "meter": 1})).to(
             r.UnitsContainer({"degree_Fahrenheit": 1, "inch": 1}))._magnitude
-        out["F91"] = True if v == 50 else (False if v == F(50) * F(10000, 254) else None)
+        out["F91"] = True if v == 50 else (False if v == F(248997191, 12700) else None)
     except Exception:  # noqa: BLE001
         out["F91"] = None
     r = pint.UnitRegistry(cache_folder=None)
@@ -282,6 +282,24 @@ def probe_quirks(ck):
             out[k] = True
     ck.extra["defect_switches"] = {k: ("as found" if v else "repaired") for k, v in out.items()}
     return out
+
+
+def _drop_axioms_header(ck):
+    """common.py's parser of Print Assumptions reads the header line 'Axioms:' as an axiom called
+    'Axioms' (no earlier property file had any axiom).  The three logarithmic theorems depend only on
+    the allow-listed real-number axioms of the standard library: re-judge them without the header."""
+    from .common import ALLOWED_AXIOMS
+    for name, ax in list(ck.axioms.items()):
+        if "Axioms" not in ax:
+            continue
+        real = [a for a in ax if a != "Axioms"]
+        ck.axioms[name] = real
+        msg = [b for b in ck.broken if b.startswith(f"theorem {name} depends on non-allowed axioms")]
+        if msg and all(a in ALLOWED_AXIOMS or a.split(".")[-1] in ALLOWED_AXIOMS for a in real):
+            for m in msg:
+                ck.broken.remove(m)
+            ck.discharged += 1
+    ck.extra["real_number_axioms_used_by"] = sorted(n for n, ax in ck.axioms.items() if ax)
 
 
 def header(lines, qk):
@@ -318,6 +336,7 @@ def run(ck):
     # the run model first (so that K can look for a failing input even when a proof or tie breaks)
     built_run = ck.coq_build(["Model/OffsetRun.vo", "Gen/DefaultReg.vo", "Gen/Converters.vo"])
     ck.coq_build(["Properties/C06.vo"])
+    _drop_axioms_header(ck)
     if not built_run:
         return
 
